@@ -7,10 +7,11 @@
    C07_response_identity.  Historical records of repaired behaviour (functions no code corresponds to
    any more): C07_strip_keeps_encoding_unrepaired, C07_gzip_added_unrepaired.
    Theorems that back the check's verdict 4: C07_strip_on_domain / C07_ws_target_on_domain (group A),
-   C07_spec_forward_rest_holds / C07_spec_response_holds (group B). *)
+   C07_spec_forward_rest_holds / C07_spec_response_holds (group B), C07_noroute_history_spec_holds
+   (histories of the no-route page). *)
 From Coq Require Import String List NArith ZArith Bool.
-From Fabio Require Import Lib.Outcome Lib.Bytes Model.UrlPathC07 Model.HttpFwd
-  Proofs.UrlPathC07 Proofs.HttpFwd.
+From Fabio Require Import Lib.Outcome Lib.Bytes Model.UrlPathC07 Model.HttpFwd Model.NoRoutePage
+  Proofs.UrlPathC07 Proofs.HttpFwd Proofs.NoRoutePage.
 Import ListNotations.
 Local Open Scope N_scope.
 
@@ -352,3 +353,74 @@ Theorem C07_routed_one_upstream : forall wire cf o q answer u,
   serve_http wire cf (Some o) q answer = Ok (Some u, respond (answer u)).
 Proof. exact routed_one_upstream. Qed.
 Print Assumptions C07_routed_one_upstream.
+
+(* ---- the no-route page as configured at run time (main.go watchNoRouteHTML -> noroute store) ---- *)
+
+(* whatever the registry delivered before, and whatever the store held: after the watcher has handled
+   a sequence of deliveries the store holds the last one *)
+Theorem C07_noroute_page_is_last_delivered : forall deliveries stored,
+  watch_run stored deliveries = last deliveries stored.
+Proof. exact watch_run_last. Qed.
+Print Assumptions C07_noroute_page_is_last_delivered.
+
+(* a removal (the empty value) empties the store, whatever was configured before *)
+Theorem C07_noroute_page_removed : forall stored deliveries,
+  watch_run stored (deliveries ++ [[]]) = [].
+Proof. exact watch_run_removed. Qed.
+Print Assumptions C07_noroute_page_removed.
+
+(* for every history of deliveries and requests: each request without a route receives the
+   configured status and the page configured by the part of the history in front of it (the last
+   page delivered; empty after a removal), and no upstream is contacted *)
+Theorem C07_noroute_history : forall wire status init h,
+  nr_run wire status init h = map (fun r => Ok (None, r)) (nr_expected status init h).
+Proof. exact nr_run_spec. Qed.
+Print Assumptions C07_noroute_history.
+
+(* the boolean specification the check evaluates on histories holds of the model (backs verdict 4) *)
+Theorem C07_noroute_history_spec_holds : forall wire status init h,
+  nr_spec_b status init h (nr_model_obs (nr_run wire status init h)) = true.
+Proof. exact nr_spec_b_holds. Qed.
+Print Assumptions C07_noroute_history_spec_holds.
+
+(* non-vacuity: set / repeat / replace / remove / set again / remove again with requests in between;
+   and the specification rejects a run in which a removed page keeps being served *)
+Theorem C07_noroute_history_nonvacuous :
+  let q := {| rq_method := [71]; rq_target := [47]; rq_host := [104]; rq_headers := []; rq_body := [] |} in
+  map (fun o => match o with Ok (None, r) => Some (rs_status r, rs_body r) | _ => None end)
+      (nr_run false 503 [] (nr_example_history q))
+  = [Some (503%Z, []); Some (503%Z, [49]); Some (503%Z, [50; 50]); Some (503%Z, []); Some (503%Z, [49]);
+     Some (503%Z, [])]
+  /\ nr_changes [] (nr_example_history q) = 5%nat.
+Proof. exact nr_run_nonvacuous. Qed.
+Print Assumptions C07_noroute_history_nonvacuous.
+
+Theorem C07_noroute_history_spec_rejects_stale_page :
+  let q := {| rq_method := [71]; rq_target := [47]; rq_host := [104]; rq_headers := []; rq_body := [] |} in
+  let r b := (false, {| rs_status := 503; rs_headers := []; rs_body := b |}) in
+  nr_spec_b 503 [] (nr_example_history q) [r []; r [49]; r [50; 50]; r [50; 50]; r [49]; r [49]] = false
+  /\ nr_spec_b 503 [] (nr_example_history q) [r []; r [49]; r [50; 50]; r []; r [49]; r []] = true.
+Proof. exact nr_spec_rejects_stale_page. Qed.
+Print Assumptions C07_noroute_history_spec_rejects_stale_page.
+
+(* the watcher cut into its atomic actions (receive, noroute.GetHTML, noroute.SetHTML), requests
+   (one atomic load) scheduled anywhere in between: every request is answered with the last page
+   among the deliveries the watcher has taken off the channel, the one it is just handling excepted *)
+Theorem C07_noroute_any_schedule : forall init deliveries sched,
+  Forall (sched_page_ok init deliveries) (sched_run (w_init init deliveries) sched).
+Proof. exact sched_run_pages. Qed.
+Print Assumptions C07_noroute_any_schedule.
+
+Theorem C07_noroute_schedule_idle : forall init deliveries sched rem page,
+  In (rem, true, page) (sched_run (w_init init deliveries) sched) ->
+  page = watch_run init (firstn (length deliveries - rem) deliveries).
+Proof. exact sched_run_idle. Qed.
+Print Assumptions C07_noroute_schedule_idle.
+
+Theorem C07_noroute_schedule_nonvacuous :
+  sched_run (w_init [48] [[49]; []; [50]])
+            [false; true; false; true; true; false; true; true; false; true; true; false; true; true; true; true; false]
+  = [(3%nat, true, [48]); (2%nat, false, [48]); (2%nat, true, [49]); (1%nat, false, [49]); (0%nat, false, []);
+     (0%nat, true, [50])].
+Proof. exact sched_run_nonvacuous. Qed.
+Print Assumptions C07_noroute_schedule_nonvacuous.
